@@ -167,7 +167,7 @@ def main():
         "hooks": {
             "guard": "none committed: instrumentation is a `go build -overlay` generated from /repo's working tree by /verif/harness/cmd/simgen at check time; every hook is a nil-checked package variable",
             "enable": "./check build  (simgen -> /verif/.build/overlay-<hash>/overlay.json; go1.26.8 build -overlay ... ./cmd/simcheck)",
-            "baseline_off_cmd": "for m in . adapters/cassandra adapters/redis ai incfs infs jsondb search; do (cd /repo/$m && go test -vet=off -count=1 -timeout 25m ./...) || exit 1; done",
+            "baseline_off_cmd": "/verif/tools/baseline_check.sh",
             "source_commits": [],
             "add_only": True,
         },
